@@ -118,6 +118,40 @@ def hashAtL (H : List UInt8 → List UInt8) : List Cell → List (Nat → List U
   | c :: cs => hashAt H c :: hashAtL H cs
 end
 
+/-! ### the representations that are hashed (inputs of `H`), for statements about collision-freedom -/
+
+/-- level `l` of a cell `(ty, mask)` has a representation of its own: it is significant and not one of the lower
+levels a pruned branch merely stores -/
+def computed (ty mask l : Nat) : Bool := significant mask l && !(ty == tyPruned && decide (l < level mask))
+
+/-- the byte string hashed at a computed level `l` -/
+def reprLevel (H : List UInt8 → List UInt8) (ty mask : Nat) (bits : List Bool)
+    (kh : List (Nat → List UInt8)) (kd : List (Nat → Nat)) (l : Nat) : List UInt8 :=
+  descr ty mask bits kh.length l ++
+    (if l = 0 ∨ ty = tyPruned then paddedData bits else hashLevel H ty mask bits kh kd (l - 1)) ++
+    childrenPart ty kh kd l
+
+mutual
+/-- every byte string that is hashed when the hashes of `c` at levels 0..3 are computed: the representations of all
+computed levels of all its sub-cells (a finite list; `CollisionFree H (allReprs H c)` is the local idealisation) -/
+def allReprs (H : List UInt8 → List UInt8) : Cell → List (List UInt8)
+  | .mk ty mask bits refs =>
+    ((List.range 4).filter (computed ty mask)).map (reprLevel H ty mask bits (hashAtL H refs) (depthAtL refs)) ++
+      allReprsL H refs
+def allReprsL (H : List UInt8 → List UInt8) : List Cell → List (List UInt8)
+  | [] => []
+  | c :: cs => allReprs H c ++ allReprsL H cs
+end
+
+mutual
+/-- the cell and all cells below it -/
+def subcells : Cell → List Cell
+  | .mk ty mask bits refs => .mk ty mask bits refs :: subcellsL refs
+def subcellsL : List Cell → List Cell
+  | [] => []
+  | c :: cs => subcells c ++ subcellsL cs
+end
+
 /-- level of a cell -/
 def cellLevel (c : Cell) : Nat := level c.mask
 
